@@ -547,6 +547,15 @@ fn durations() -> Vec<(&'static str, Duration, U)> {
         ("P4DT5H", dur10([0., 0., 0., 4., 5., 0., 0., 0., 0., 0.]).unwrap(), U::Day),
         ("P1Y2M3W4DT5H", dur10([1., 2., 3., 4., 5., 0., 0., 0., 0., 0.]).unwrap(), U::Year),
         ("PT0.000000010S", dur10([0., 0., 0., 0., 0., 0., 0., 0., 0., 10.]).unwrap(), U::Ns),
+        // one receiver led by each remaining unit, its smaller fields above their carry thresholds, so that the
+        // default largest unit (the receiver's own) is visible in the balanced result
+        ("P14M40D", dur10([0., 14., 0., 40., 0., 0., 0., 0., 0., 0.]).unwrap(), U::Month),
+        ("P3W10DT30H", dur10([0., 0., 3., 10., 30., 0., 0., 0., 0., 0.]).unwrap(), U::Week),
+        ("PT90M4567S", dur10([0., 0., 0., 0., 0., 90., 4567., 0., 0., 0.]).unwrap(), U::Minute),
+        ("PT4567.008S (ms 4567008 us)", dur10([0., 0., 0., 0., 0., 0., 4567., 0., 4_567_008., 0.]).unwrap(), U::Second),
+        ("4567 ms 8900 us", dur10([0., 0., 0., 0., 0., 0., 0., 4567., 8900., 10.]).unwrap(), U::Ms),
+        ("4567 us 8900 ns", dur10([0., 0., 0., 0., 0., 0., 0., 0., 4567., 8900.]).unwrap(), U::Us),
+        ("-4567 us -8900 ns", dur10([0., 0., 0., 0., 0., 0., 0., 0., -4567., -8900.]).unwrap(), U::Us),
     ]
 }
 
